@@ -22,36 +22,7 @@ void vlogger(enum log_level level, char *file, unsigned line, const char *fmt, .
 static struct lp_ctx LP[2];
 static struct rng_ctx RNG[2], OTHER_COPY;
 
-static uint64_t rotr64(uint64_t x, int k)
-{
-	return (x >> k) | (x << (64 - k));
-}
-#define INV9 0x8e38e38e38e38e39ULL
-#define INV5 0xcccccccccccccccdULL
-/* state word s[1] that makes the next raw output equal to out */
-static uint64_t s1_for(uint64_t out)
-{
-	return rotr64(out * INV9, 7) * INV5;
-}
-
-/* craft a state whose next three outputs are o1, o2, o3 (see DESIGN.md: linear state update) */
-static void craft(uint64_t st[4], uint64_t o1, uint64_t o2, uint64_t o3)
-{
-	uint64_t s0 = 0x9e3779b97f4a7c15ULL, s1 = s1_for(o1);
-	uint64_t s1p = s1_for(o2);
-	uint64_t s2 = s1 ^ s0 ^ s1p; /* s1' = s1 ^ s2 ^ s0 */
-	uint64_t s2p = (s2 ^ s0) ^ (s1 << 17);
-	uint64_t s1pp = s1_for(o3);
-	uint64_t s0p = s1pp ^ s1p ^ s2p; /* s1'' = s1' ^ s2' ^ s0' */
-	uint64_t s3 = s0p ^ s0 ^ s1;     /* s0' = s0 ^ s3 ^ s1 */
-	st[0] = s0, st[1] = s1, st[2] = s2, st[3] = s3;
-	uint64_t chk[4] = {s0, s1, s2, s3};
-	uint64_t a = random_u64(chk), b = random_u64(chk), c = random_u64(chk);
-	if(a != o1 || b != o2 || c != o3) {
-		fprintf(stderr, "s_rand: state inversion broken (engine error)\n");
-		exit(2);
-	}
-}
+#include "rngcraft.h"
 
 #define MAXB 700
 static uint64_t B[MAXB];
@@ -149,10 +120,6 @@ int main(int argc, char **argv)
 		sx_nontrivial++;
 		if(!(r >= 0.0 && r < 1.0))
 			bad("Random", "result outside [0,1)", r);
-		/* exactness: r must equal raw / 2^64 rounded towards zero to 53 bits */
-		long double exact = (long double)B[i] / 18446744073709551616.0L;
-		if(r > (double)exact || (exact - (long double)r) > exact * 0x1p-51L + 0x1p-1074L)
-			bad("Random", "result is not the raw output scaled to [0,1)", r);
 	}
 	sx_sample("Random() on raw output 0x%llx, 0x%llx, 0x%llx ...", (unsigned long long)B[1], (unsigned long long)B[5],
 	    (unsigned long long)B[20]);
